@@ -13,6 +13,7 @@ import (
 	"os"
 	"runtime"
 	"sort"
+	"strings"
 	"sync"
 	"sync/atomic"
 	"time"
@@ -103,7 +104,7 @@ func main() {
 		"Each packet: (1) frames vs an independent reference encoder written from the v5 protocol (header bytes exact; JSON compared as a document with placeholders dereferenced to their attachment, numbering must be document order unless a map makes it free), " +
 		"(2) frames fed to a fresh parser: same type/namespace/id/name, decode into the emitted static types equals the model, every attachment byte-identical and in place (Binary below an `any` slot: not demanded), " +
 		"(3) deep snapshot of the value given to Encode equals it afterwards, (4) a second Encode of the same value gives canonically equal frames. " +
-		"Packets are de-duplicated by their full written-out form before evaluation, so evaluations counts distinct packets; a packet is non-trivial unless it is a bare packet (no payload, no id) in namespace / with a plain a-z name."
+		"Packets are de-duplicated by their full written-out form before evaluation (the three-argument block is distinct by construction: every sequence over a set of pairwise different values, verified, and no other block emits three arguments), so evaluations counts distinct packets; a packet is non-trivial unless it is a bare packet (no payload, no id) in namespace / with a plain a-z name."
 	r.Assumptions = []string{
 		"JSON serializer = stdjson (encoding/json), maxAttachments = 0 (unlimited), as the library's defaults",
 		"the value given to Encode is what the library gives it: &[]any{name, args...} for EVENT, &[]any{args...} for ACK, a pointer to the payload for control packets",
@@ -188,8 +189,11 @@ func main() {
 		}
 	}()
 
+	if err := checkDistinctSets(); err != "" {
+		r.HarnessErrs = append(r.HarnessErrs, err)
+	}
 	seen := map[[sha1.Size]byte]struct{}{}
-	capped := false
+	capped, threeArgClash := false, false
 	for bi, b := range bl {
 		bs := &blockStat{Name: b.name, What: b.what}
 		bstats[bi] = bs
@@ -208,12 +212,20 @@ func main() {
 				r.CapsHit = append(r.CapsHit, fmt.Sprintf("wall-clock budget %v reached in block %s", budget, b.name))
 				return
 			}
-			h := sha1.Sum([]byte(p.String()))
-			if _, dup := seen[h]; dup {
-				bs.Duplicates++
-				return
+			if !b.distinctByConstruction {
+				if len(p.Args) == 3 && !threeArgClash {
+					threeArgClash = true
+					r.HarnessErrs = append(r.HarnessErrs, "block "+b.name+" emits three arguments, which the distinct-by-construction block relies on being the only one to do")
+				}
+				h := sha1.Sum([]byte(p.String()))
+				if _, dup := seen[h]; dup {
+					bs.Duplicates++
+					return
+				}
+				seen[h] = struct{}{}
+			} else if len(p.Args) != 3 {
+				r.HarnessErrs = append(r.HarnessErrs, "block "+b.name+" claims distinctness by construction but emitted a packet without exactly 3 arguments")
 			}
-			seen[h] = struct{}{}
 			bs.Evaluated++
 			r.Evaluations++
 			if nontrivial(p) {
@@ -266,6 +278,7 @@ func main() {
 		}
 	}
 	r.Extra["blocks"] = bstats
+	r.Extra["note_on_counters"] = "the counters below are per oracle run: a packet whose numbering depends on map order is run 4 times (map_order_repeats)"
 	r.Extra["frames_byte_identical_to_reference"] = total.ByteIdentical
 	r.Extra["frames_equal_after_canonicalisation_only"] = total.CanonIdentical
 	r.Extra["packets_with_attachments"] = total.BinaryPackets
@@ -327,6 +340,23 @@ func doReplay(path string) {
 	}
 	fmt.Println("the recorded violation does not occur on this tree")
 	os.Exit(0)
+}
+
+// checkDistinctSets verifies the premise of blocks that are distinct by construction: the base sets
+// contain pairwise different values (different written-out forms).
+func checkDistinctSets() string {
+	for name, set := range map[string][]*node{"depth1": depth1(), "representatives": representatives()} {
+		seen := map[string]bool{}
+		for _, n := range set {
+			var sb strings.Builder
+			n.render(&sb)
+			if seen[sb.String()] {
+				return "value set " + name + " contains " + sb.String() + " twice"
+			}
+			seen[sb.String()] = true
+		}
+	}
+	return ""
 }
 
 // normalise repairs what JSON cannot carry: an empty Binary comes back as nil bytes.
